@@ -321,6 +321,70 @@ class FrozenKey(frozenset):
     pass
 
 
+class EmptyKeyError(KeyError):
+    """a lookup error that is falsy (sized by its list of candidates, raised with none)"""
+    def __len__(self):
+        return len(self.args)
+
+
+class EmptyAttributeError(AttributeError):
+    def __bool__(self):
+        return False
+
+
+class Strict(dict):
+    """mapping whose misses are reported with its own (falsy) KeyError subclass"""
+    __slots__ = ()
+
+    def __missing__(self, key):
+        raise EmptyKeyError()
+
+
+class StrictObj:
+    __slots__ = ('a',)
+
+    def __init__(self, a):
+        self.a = a
+
+    def __getattr__(self, name):
+        raise EmptyAttributeError()
+
+
+def run_falsy_miss(case):
+    holder, segs, spelling = case
+    leaf = object()
+    inner = Strict(b=leaf) if holder == 'mapping' else StrictObj(leaf)
+    good = 'b' if holder == 'mapping' else 'a'
+    target = {'top': inner}
+    steps = ['top'] + [good if sg == 'ok' else 'zz' for sg in segs]
+    if spelling == 'text':
+        spec = '.'.join(steps)
+    elif spelling == 'path':
+        spec = Path(*steps)
+    else:
+        spec = T['top']
+        for st in steps[1:]:
+            spec = spec[st] if holder == 'mapping' else getattr(spec, st)
+    want_fail = 1 + segs.index('miss') if 'miss' in segs else None
+    try:
+        got = ('ok', glom(target, spec))
+    except Exception as e:
+        got = ('exc', e)
+    where = {'holder': holder, 'segments': steps, 'spelling': spelling}
+    if want_fail is None:
+        ok = got[0] == 'ok' and got[1] is leaf
+        return R(None, 'ok', nontrivial=True, steps=2) if ok else R({'expected': 'the leaf', 'observed': repr(got), **where}, 'ok')
+    e = got[1]
+    if got[0] == 'ok' or not isinstance(e, PathAccessError) or e.part_idx != want_fail:
+        return R({'expected': 'PathAccessError at part %d (the lookup error object is falsy, it is an error all the same)' % want_fail,
+                  'observed': repr(got), **where}, 'falsy-miss')
+    return R(None, 'miss@%d' % want_fail, nontrivial=True, steps=2, tags={holder, spelling})
+
+
+def gen_falsy_miss(tier):
+    return [[h, list(sg), sp] for h in ('mapping', 'object') for sg in (['ok'], ['miss'], ['miss', 'ok']) for sp in ('text', 'path', 'T')]
+
+
 OBJ_KEYS = {
     # kind -> (key present in the mapping, an absent key of the same kind)
     'namedtuple': (Cell(1, 2), Cell(2, 1)), 'namedtuple-1-field': (Cell1(1), Cell1(2)), 'tuple-subclass': (TupleKey((1, 2)), TupleKey((3,))),
@@ -365,7 +429,10 @@ def gen_object_keys(tier):
 def subs(tier, only=None):
     from ..engine import fast_tracebacks
     fast_tracebacks()
-    return [Sub('object-keys', gen_object_keys(tier), run_object_keys,
+    return [Sub('falsy-lookup-errors', gen_falsy_miss(tier), run_falsy_miss,
+                rule='case = (mapping whose __missing__ / object whose __getattr__ raises a FALSY KeyError / AttributeError subclass; segments hit or miss; '
+                     'spelling): a miss is a PathAccessError at that part', min_nontrivial=15, min_outcomes=2, required_tags=['mapping', 'object', 'T']),
+            Sub('object-keys', gen_object_keys(tier), run_object_keys,
                 rule='case = (kind of key at level 1, at level 2, position of a missing key or none, spelling Path(...) / T[...] / mixed): mapping keys that '
                      'are objects (namedtuples, tuple / frozenset subclasses, numbers, None, bytes, strings containing dots or stars)',
                 min_nontrivial=2000, min_outcomes=3, required_tags=['namedtuple', 'tuple-subclass', 'dotted-str', 'path', 'T']),
